@@ -30,8 +30,14 @@ func FreeAddr() string {
 	if s, err := strconv.Atoi(os.Getenv("VERIF_SLOT")); err == nil {
 		shard = s
 	}
-	const span = 1300
-	base := 10000 + (shard%16)*span
+	// 16 slots x 400 ports per driver; the driver picks one of three bases (by its pid), so that
+	// two checks running at the same time rarely share a range
+	const span = 400
+	pb, err := strconv.Atoi(os.Getenv("VERIF_PORTBASE"))
+	if err != nil || pb < 1024 {
+		pb = 10000
+	}
+	base := pb + (shard%16)*span
 	for i := 0; i < span; i++ {
 		port := base + int((atomic.AddInt64(&portCtr, 1)+int64(os.Getpid()*7))%span)
 		l, err := net.Listen("tcp", fmt.Sprintf("127.0.0.1:%d", port))
